@@ -44,23 +44,23 @@ def queries(tier):
                        desc='scoped_fd: every sequence of %d operations (10 kinds, 2 objects, open may fail) vs an ownership model; every descriptor handed out is closed exactly once' % n,
                        bounds='%d operations, 2 objects' % n))
     for S in ([0, 1, 2, 3, 4, 5] if tier == 'quick' else range(0, 10)):
-        qs.append(dict(name='readall_fd_rs4_len%d' % S, unit='fsrs4', harness='h_readall.c', defs={'S': S, 'RS': 4}, unwind=max(S, 4) + 4, timeout=900, mem_gb=10, flags=FS0,
+        qs.append(dict(name='readall_fd_rs4_len%d' % S, unit='fsrs4', harness='h_readall.c', defs={'S': S, 'RS': 4}, unwind=max(S, 4) + 4, timeout=900, mem_gb=10, flags=FS0, backend='cadical',
                        desc='read_all(fd) over a %d-byte symbolic source delivered in every possible chunking (each read returns 1..remaining bytes, then 0), optional read fault: result == source or io_error' % S,
                        bounds='source length == %d; <= %d read calls' % (S, S + 2)))
     for S in ([0, 3, 4, 5, 8] if tier == 'quick' else range(0, 10)):
-        qs.append(dict(name='readall_file_rs4_len%d' % S, unit='fsrs4', harness='h_readall_file.c', defs={'S': S, 'RS': 4}, unwind=max(S, 4) + 4, timeout=900, mem_gb=10, flags=FS0,
+        qs.append(dict(name='readall_file_rs4_len%d' % S, unit='fsrs4', harness='h_readall_file.c', defs={'S': S, 'RS': 4}, unwind=max(S, 4) + 4, timeout=900, mem_gb=10, flags=FS0, backend='cadical',
                        desc='read_all(FILE*) over a %d-byte symbolic stream, fread per C contract (short only at EOF), block size 4: result == stream' % S,
                        bounds='stream length == %d, block size 4 (substituted for 16384)' % S))
     FB = 8
     JOIN = '_ZN5phosg4joinISt5dequeINSt7__cxx1112basic_stringIcSt11char_traitsIcESaIcEEEvEEES7_RKT_.0'
     cells = [(0, 0), (0, 1), (1, 1), (6, 1), (7, 0), (7, 1), (8, 1), (14, 1)] if tier == 'quick' else [(L, nl) for L in (0, 1, 5, 6, 7, 8, 13, 14, 15, 21, 22) for nl in (0, 1)]
     for L, nl in cells:
-        qs.append(dict(name='fgets_fb8_len%d_nl%d' % (L, nl), unit='fsfb8', harness='h_fgets.c', defs={'LEN': L, 'HAS_NL': nl, 'FB': FB}, unwind=max(L + 3, FB + 3), timeout=1200, mem_gb=10, flags=FS0,
+        qs.append(dict(name='fgets_fb8_len%d_nl%d' % (L, nl), unit='fsfb8', harness='h_fgets.c', defs={'LEN': L, 'HAS_NL': nl, 'FB': FB}, unwind=max(L + 5, FB + 3), timeout=1500, mem_gb=10, flags=FS0, backend='cadical',
                        unwindset='%s:%d' % (JOIN, L // (FB - 1) + 4),  # the join loop runs once per block
                        desc='phosg::fgets (block size 8) on a line of %d symbolic bytes %s, ::fgets per C contract: the whole line, nothing more' % (L, 'newline-terminated + 2 following bytes' if nl else 'ended by end of data'),
                        bounds='line length == %d, block size 8 (substituted for 256)' % L))
     for L, nl, fa in ([(0, 1, 0), (9, 1, 1)] if tier == 'quick' else [(0, 1, 0), (9, 1, 1), (9, 0, 1), (16, 1, 2)]):
-        qs.append(dict(name='fgets_fb8_len%d_nl%d_fault%d' % (L, nl, fa), unit='fsfb8', harness='h_fgets.c', defs={'LEN': L, 'HAS_NL': nl, 'FB': FB, 'FAULT_AT': fa}, unwind=max(L + 3, 26), timeout=1200, mem_gb=10, flags=FS0,
+        qs.append(dict(name='fgets_fb8_len%d_nl%d_fault%d' % (L, nl, fa), unit='fsfb8', harness='h_fgets.c', defs={'LEN': L, 'HAS_NL': nl, 'FB': FB, 'FAULT_AT': fa}, unwind=max(L + 5, 26), timeout=1500, mem_gb=10, flags=FS0, backend='cadical',
                        unwindset='%s:%d' % (JOIN, L // (FB - 1) + 4),
                        desc='phosg::fgets (block size 8), line of %d bytes, the %d-th ::fgets call fails without EOF: io_error, no partial line' % (L, fa),
                        bounds='line length == %d, block size 8' % L))
